@@ -19,7 +19,7 @@ pub fn def() -> PropDef {
     gen,
     check,
     panic_policy: PanicPolicy::Count,
-    rule: "random ASCII source trees with consistent leaf maps (as C02); map() for both column settings is checked for charset, decodability by the reference decoder, strictly increasing generated positions before the end of source(), indices inside the tables; all four stream modes are checked for announce-before-use and dense announced indices; non-trivial = a composite tree whose map has >= 2 mapped segments and whose streams announced >= 1 source; distinct = spec fingerprint",
+    rule: "random ASCII source trees with consistent leaf maps (as C02); map() for both column settings is checked for charset, decodability by the reference decoder, strictly increasing generated positions before the end of source(), indices inside the tables; all four stream modes are checked for announce-before-use and dense announced indices; non-trivial = a composite tree whose map has >= 2 mapped segments and whose streams announced >= 1 source; trees repeat an earlier sibling now and then and, in every second case, equal Cached nodes of the tree under test are one shared instance / clones sharing one cache; the object is used before the checked call by a random prelude of 0-3 observer calls; distinct = spec fingerprint",
     cases: |t| match t {
       Tier::Quick => 150_000,
       Tier::Thorough => 2_000_000,
